@@ -701,8 +701,11 @@ static int32_t tls13ParseAndHandleAlert(ssl_t *ssl,
            data to parse. */
         return MATRIXSSL_ERROR;
     }
-    /* The client expects to find the alert data at the start of the buffer */
-    Memmove(*in, *in + TLS_REC_HDR_LEN, 2);
+    /* The client expects to find the alert data at the start of the buffer.
+       (The record need not start there: ignored change_cipher_spec records
+       may precede it in the same buffer.) */
+    (*in)[0] = alertVal[0];
+    (*in)[1] = alertVal[1];
 
     *len = 2;
 
